@@ -189,10 +189,12 @@ func failedOracle(r, rec *engine.Result, faults []simfs.Fault) []core.Violation 
 		}
 		if !simfs.SameEntry(e0, e1) {
 			how := "changed"
-			if rec != nil && kind == "preexisting-output" {
+			if rec != nil && kind == "preexisting-output" && e1.Type == "file" {
 				// an earlier part of a multi-output operation was published over it, completely
-				if er, ok := rec.S1[k]; ok && er.Type == e1.Type && e1.Type == "file" && (er.Sum == e1.Sum || r.ValidPDF[k]) {
+				if er, ok := rec.S1[k]; ok && er.Type == e1.Type && (er.Sum == e1.Sum || r.ValidPDF[k]) {
 					how = "replaced-by-complete-earlier-output"
+				} else if !ok && expectedName(rec, k) && r.ValidPDF[k] {
+					how = "replaced-by-complete-earlier-output" // a complete intermediate output (merge mode)
 				}
 			}
 			mk("damaged", kind+":"+how, fmt.Sprintf("%s (%s) changed: %s -> %s [%s]", k, kind, e0, e1, how))
@@ -273,13 +275,43 @@ func pathKindNorm(p string) string {
 	return "other"
 }
 
+// expectedName: the fault-free run creates a file of this name in the output directory.
+func expectedName(rec *engine.Result, rel string) bool {
+	for _, n := range append(populateFrom(rec), rec.Cfg.Populate...) {
+		if "out/"+n == rel {
+			return true
+		}
+	}
+	return false
+}
+
 func populateFrom(rec *engine.Result) []string {
-	var names []string
+	set := map[string]bool{}
 	for k, e := range rec.S1 {
 		if _, ok := rec.S0[k]; ok || e.Type != "file" || !strings.HasPrefix(k, "out/") {
 			continue
 		}
-		names = append(names, strings.TrimPrefix(k, "out/"))
+		set[strings.TrimPrefix(k, "out/")] = true
+	}
+	// names the operation creates in the output directory only temporarily (multi-fill merge
+	// intermediates) can collide with existing files as well
+	for _, e := range rec.Events {
+		p := ""
+		switch e.Op {
+		case "openExcl", "create":
+			p = e.Path
+		case "rename":
+			p = e.Path2
+		}
+		if strings.HasPrefix(p, "out/") && !simfs.IsHidden(p) && !simfs.HiddenAncestor(p) && e.Err == "" {
+			if _, ok := rec.S0[p]; !ok {
+				set[strings.TrimPrefix(p, "out/")] = true
+			}
+		}
+	}
+	var names []string
+	for n := range set {
+		names = append(names, n)
 	}
 	sort.Strings(names)
 	return names
